@@ -1,6 +1,6 @@
 (* Extraction of the C01 mechanism models for the correspondence driver. ExtrOcamlBasic only. *)
 Require Import ExtrOcamlBasic.
-Require Import XV.XsltEventsDefs XV.XsltVarsDefs XV.XsltFactsModel.
+Require Import XV.XsltEventsDefs XV.XsltVarsDefs XV.XsltVariantDefs.
 Extraction "extracted/xslt_model.ml"
   BinNums.positive BinNums.N BinNums.Z
   machine_tree canon_list spec_tree ops_of
